@@ -378,6 +378,14 @@ class Run:
 
     def finish(self, extra=None):
         self.cov['distinct_nontrivial'] = len(self.distinct)
+        axs = sorted({a for l in self.cov.get('axioms_per_theorem', {}).values() for a in l})
+        self.cov['trusted_base'] = [
+            'Coq 8.16.1 kernel via coqc (full .vo build; vm_compute used; native_compute not used)',
+            'axioms reported by Print Assumptions for the property theorems of this run: ' + (', '.join(axs) if axs else 'none (closed under the global context)'),
+            'Coq extraction (ExtrOcamlBasic only; no Extract Constant / Extract Inductive of our own) and the OCaml 4.13.1 driver in ocaml/',
+            'the correspondence: harness/*.cpp built from /repo/src working tree with g++ -O1 -fsanitize=address,undefined,float-cast-overflow, generators and oracle in tools/p_%s.py' % self.pid,
+            'modelled rather than verified: the C++ source itself; the Gallina model is hand-written and tied to it by the correspondence (differential testing)',
+        ] + self.assumptions
         if extra:
             self.cov.update(extra)
         self.cov['broken'] = self.broken
